@@ -131,37 +131,45 @@ def oracle(c, o):
     if tb is None:
         return None if (r[0] == "exc" and r[1] == "ValueError") else {"why": f"invalid method/alternatives {c['method']!r}/{c['alts']!r} not rejected with ValueError: {r[:2]}", "cls": "westfall_young:validation"}
     if r[0] != "ok":
-        return {"why": f"westfall_young raised {r}", "cls": "westfall_young:raises"}
+        _v = emit({"why": f"westfall_young raised {r}", "cls": "westfall_young:raises"})
+        if _v: return _v
     adj, raw, L = tb
     reps = len(c["table"]) - 1
     got_adj, got_raw = r[1], r[2]
     if any(abs(Fraction(g) - w) > Fraction(1, 10**10) for g, w in zip(got_raw, raw)):
-        return {"why": f"raw p-values {got_raw} are not (count+1)/(reps+1) = {[str(x) for x in raw]}", "cls": "westfall_young:raw"}
+        _v = emit({"why": f"raw p-values {got_raw} are not (count+1)/(reps+1) = {[str(x) for x in raw]}", "cls": "westfall_young:raw"})
+        if _v: return _v
     for g, w in zip(got_adj, got_raw):
         if g < w - 1e-12 or not (1 / (reps + 1) - 1e-12 <= g <= 1 + 1e-12):
-            return {"why": f"adjusted {got_adj} below raw {got_raw} or outside [1/(reps+1),1]", "cls": "westfall_young:adj-below-raw"}
+            _v = emit({"why": f"adjusted {got_adj} below raw {got_raw} or outside [1/(reps+1),1]", "cls": "westfall_young:adj-below-raw"})
+            if _v: return _v
     uniform = len(set(norm_alts(c))) == 1
     if uniform and any(abs(Fraction(g) - w) > Fraction(1, 10**10) for g, w in zip(got_adj, adj)):
-        return {"why": f"{c['method']} adjusted p-values {got_adj} differ from the step-down permutation probabilities {[str(x) for x in adj]} (table {c['table']}, alternatives {c['alts']})", "cls": f"westfall_young:{c['method']}:stepdown"}
+        _v = emit({"why": f"{c['method']} adjusted p-values {got_adj} differ from the step-down permutation probabilities {[str(x) for x in adj]} (table {c['table']}, alternatives {c['alts']})", "cls": f"westfall_young:{c['method']}:stepdown"})
+        if _v: return _v
     if uniform:
         m = len(got_adj)
         key = got_raw if c["method"] == "minP" else [-(abs(v) if norm_alts(c)[0] == "two-sided" else v) for v in c["table"][0]]
         for a in range(m):
             for b in range(m):
                 if key[a] < key[b] - 1e-12 and got_adj[a] > got_adj[b] + 1e-12:
-                    return {"why": f"adjusted values {got_adj} not ordered like {'raw p-values' if c['method'] == 'minP' else 'observed statistics'} {key}", "cls": "westfall_young:order"}
+                    _v = emit({"why": f"adjusted values {got_adj} not ordered like {'raw p-values' if c['method'] == 'minP' else 'observed statistics'} {key}", "cls": "westfall_young:order"})
+                    if _v: return _v
         if "r_perm" in o and len(set(key)) == len(key):
             rp = o["r_perm"]
             if rp[0] != "ok" or any(abs(rp[1][k] - got_adj[o["perm"][k]]) > 1e-10 for k in range(m)):
-                return {"why": f"relabelling hypotheses by {o['perm']} does not permute the result: {got_adj} vs {rp}", "cls": "westfall_young:relabel"}
+                _v = emit({"why": f"relabelling hypotheses by {o['perm']} does not permute the result: {got_adj} vs {rp}", "cls": "westfall_young:relabel"})
+                if _v: return _v
     if not c["in_place"] and o["group_after"] != [0, 0, 0]:
-        return {"why": "in_place=False changed the caller's Experiment", "cls": "westfall_young:in-place"}
+        _v = emit({"why": "in_place=False changed the caller's Experiment", "cls": "westfall_young:in-place"})
+        if _v: return _v
     if uniform and "rot_min_adj" in o and all(v is not None for v in o["rot_min_adj"]):
         n = len(o["rot_min_adj"])
         for k in range(1, n + 1):
             cnt = sum(1 for v in o["rot_min_adj"] if v <= k / n + 1e-12)
             if cnt > k:
-                return {"why": f"FWER: {cnt} of the {n} rotations of the table have smallest adjusted p-value <= {k}/{n} (table {c['table']}, {c['method']}, {c['alts']})", "cls": "westfall_young:fwer"}
+                _v = emit({"why": f"FWER: {cnt} of the {n} rotations of the table have smallest adjusted p-value <= {k}/{n} (table {c['table']}, {c['method']}, {c['alts']})", "cls": "westfall_young:fwer"})
+                if _v: return _v
     return None
 
 
